@@ -4,7 +4,9 @@ quick checks against it (in scratch copies, never /repo), and file it under /ver
 import sys, os, subprocess, json, shutil, re, time
 id, n = sys.argv[1], sys.argv[2]
 checks = sys.argv[3].split(',') if len(sys.argv) > 3 else [id]
-src = f'/tmp/wt/{id}/SEEDED'
+ROOT = os.environ.get('WT_ROOT', '/tmp/wt')
+TAG = os.environ.get('SEED_TAG', '')
+src = f'{ROOT}/{id}/SEEDED'
 diff = f'{src}/change{n}.diff'
 demos = [f for f in os.listdir(src) if f.startswith(f'demo{n}')]
 assert demos, 'no demo'
@@ -15,12 +17,12 @@ os.makedirs('/tmp/sv/tmp', exist_ok=True)
 if not os.path.isdir(wt):
     r = sh(f'git -C /repo worktree add -q --detach {wt} HEAD'); assert r.returncode == 0, r.stderr
 sh(f'git -C {wt} checkout -q --detach $(git -C /repo rev-parse HEAD) && git -C {wt} checkout -q -- . && git -C {wt} clean -fdq -e target')
-out = f'/verif/seeded/{id}-{n}'
+out = f'/verif/seeded/{id}-{TAG}{n}'
 os.makedirs(out, exist_ok=True)
 shutil.copy(diff, f'{out}/patch.diff')
 demo_files = []
 for d in demos:
-    text = open(f'{src}/{d}').read().replace(f'/tmp/wt/{id}/target', '${TMPDIR:-/tmp}').replace(f'/tmp/wt/{id}', '${N2_WORKTREE:-/tmp/sv/wt}')
+    text = open(f'{src}/{d}').read().replace(f'{ROOT}/{id}/target', '${TMPDIR:-/tmp}').replace(f'{ROOT}/{id}', '${N2_WORKTREE:-/tmp/sv/wt}')
     open(f'{out}/{d}', 'w').write(text); os.chmod(f'{out}/{d}', 0o755); demo_files.append(d)
 notes = open(f'{src}/notes.md').read() if os.path.exists(f'{src}/notes.md') else ''
 ran = []
@@ -71,7 +73,7 @@ if confirmed:
         m = re.search(r' (C\d\d) rc=(\d+) viol=(\d+) (\d+)s ?(.*)', line)
         if m: det[m.group(1)] = {'rc': int(m.group(2)), 'violations': int(m.group(3)), 'seconds': int(m.group(4)), 'first': m.group(5)}
     ran.append('quick checks against the change (scratch copy): ' + json.dumps({k: v['rc'] for k, v in det.items()}))
-meta = {'property': id, 'source': f'sub-agent seed-{id}, change {n}', 'confirmed': confirmed, 'needs_to_manifest': '', 'what_ran': ran,
+meta = {'property': id, 'source': f'sub-agent seed{TAG}-{id}, change {n}', 'confirmed': confirmed, 'needs_to_manifest': '', 'what_ran': ran,
         'demo_unchanged': {'rc': rc0, 'tail': o0[-300:]}, 'demo_changed': {'rc': rc1, 'tail': o1[-300:]}, 'detected_by': det, 'agent_notes': notes}
 json.dump(meta, open(f'{out}/meta.json', 'w'), indent=1)
 print(id, n, 'confirmed' if confirmed else 'NOT CONFIRMED', ran, {k: (v['rc'], v['first'][:140]) for k, v in det.items()})
